@@ -27,49 +27,68 @@ theorem transfer_nonce (w : World) (src dst a : Addr) (v : Nat) :
     · subst h2; rw [get_addBal_same]
     · rw [get_addBal_other _ _ h2]
 
+theorem bump_get_sender (m : Msg) (w : World) : (bumpIfCreate m w).get m.sender =
+    { w.get m.sender with nonce := if m.f.to.isSome then (w.get m.sender).nonce else ((w.get m.sender).nonce + 1) % U64 } := by
+  unfold bumpIfCreate
+  split
+  · rfl
+  · rw [get_setNonce_same]
+
+theorem bump_get_other (m : Msg) (w : World) {a : Addr} (ha : a ≠ m.sender) : (bumpIfCreate m w).get a = w.get a := by
+  unfold bumpIfCreate
+  split
+  · rfl
+  · rw [get_setNonce_other _ _ ha]
+
 theorem evmCosting_spec (dest : Addr) (cost refundAdd : Nat) (m : Msg) (hd : dest ≠ m.sender) :
     EvmSpec (evmCosting dest cost refundAdd) m where
   gas_le := by
-    intro w r g; unfold evmCosting; simp only; split <;> simp only <;> omega
+    intro w r g; unfold evmCosting collisionOut
+    by_cases hb : (w.get m.sender).balance < (m.f.value : Int)
+    · simp [hb]
+    · by_cases hc : (m.f.to.isNone && occupied (bumpIfCreate m w) dest) = true
+      · simp [hb, hc]
+      · simp only [hb, hc, if_false, Bool.false_eq_true]; omega
   insuff := by
-    intro w r g; unfold evmCosting; simp only
-    split
-    · rename_i h; simp [h]
-    · rename_i h; simp [h]
+    intro w r g; unfold evmCosting collisionOut
+    by_cases hb : (w.get m.sender).balance < (m.f.value : Int)
+    · simp [hb]
+    · by_cases hc : (m.f.to.isNone && occupied (bumpIfCreate m w) dest) = true <;> simp [hb, hc]
   untouched := by
-    intro w r g; unfold evmCosting; simp only
-    split
-    · intro _; exact ⟨rfl, rfl, rfl⟩
-    · intro h; simp at h
+    intro w r g; unfold evmCosting collisionOut
+    by_cases hb : (w.get m.sender).balance < (m.f.value : Int)
+    · simp [hb]
+    · by_cases hc : (m.f.to.isNone && occupied (bumpIfCreate m w) dest) = true <;> simp [hb, hc]
   nonce := by
-    intro w r g; unfold evmCosting; simp only
-    split
-    · intro h; simp at h
-    · intro _
-      simp only
-      rw [transfer_nonce]
-      split
-      · rfl
-      · rw [get_setNonce_same]
+    intro w r g; unfold evmCosting collisionOut
+    by_cases hb : (w.get m.sender).balance < (m.f.value : Int)
+    · simp [hb]
+    · by_cases hc : (m.f.to.isNone && occupied (bumpIfCreate m w) dest) = true
+      · simp only [hb, hc, if_true, if_false]
+        intro _
+        rw [bump_get_sender]
+      · simp only [hb, hc, if_false, Bool.false_eq_true]
+        intro _
+        rw [transfer_nonce, bump_get_sender]
   balance := by
-    intro w r g _; unfold evmCosting; simp only
-    split
-    · simp
-    · simp only [if_true]
-      rw [transfer_get_sender _ _ _ _ hd]
-      simp only
-      split
-      · rfl
-      · rw [get_setNonce_same]
+    intro w r g _; unfold evmCosting collisionOut
+    by_cases hb : (w.get m.sender).balance < (m.f.value : Int)
+    · simp [hb]
+    · by_cases hc : (m.f.to.isNone && occupied (bumpIfCreate m w) dest) = true
+      · simp only [hb, hc, if_true, if_false]
+        rw [bump_get_sender]
+        simp
+      · simp only [hb, hc, if_false, if_true, Bool.false_eq_true]
+        rw [transfer_get_sender _ _ _ _ hd, bump_get_sender]
   nonce_mono := by
-    intro w r g a ha; unfold evmCosting; simp only
-    split
-    · exact Nat.le_refl _
-    · simp only
-      rw [transfer_nonce]
-      split
-      · exact Nat.le_refl _
-      · rw [get_setNonce_other _ _ ha]; exact Nat.le_refl _
+    intro w r g a ha; unfold evmCosting collisionOut
+    by_cases hb : (w.get m.sender).balance < (m.f.value : Int)
+    · simp [hb]
+    · by_cases hc : (m.f.to.isNone && occupied (bumpIfCreate m w) dest) = true
+      · simp only [hb, hc, if_true, if_false]
+        rw [bump_get_other _ _ ha]; exact Nat.le_refl _
+      · simp only [hb, hc, if_false, Bool.false_eq_true]
+        rw [transfer_nonce, bump_get_other _ _ ha]; exact Nat.le_refl _
 
 theorem handlerObserved_spec (ok : Bool) (stake : Nat) (m : Msg) : HandlerSpec (handlerObserved ok stake) m where
   nonce := by
